@@ -11,7 +11,7 @@ started so far can be arranged in one sequence `lin` (the order in which they ac
 each thread's operations in program order, and once every thread has finished the shared state is exactly the
 result of running the operations of `lin` one after the other, each to completion.
 -/
-namespace Verif.Mutex
+namespace Verif.RingMutex
 
 variable {σ ω : Type}
 
@@ -171,4 +171,4 @@ theorem exec_linearizable (m : Sem σ ω) (s0 : σ) (progs : Nat → List ω) (h
     obtain ⟨_, rest, hrest, _⟩ := gb t hh
     rw [(hfin t).1] at hrest; cases hrest
 
-end Verif.Mutex
+end Verif.RingMutex
